@@ -169,6 +169,7 @@ def run(ctx):
                 facts |= set(p.value.conds)
             if refuted_at_defaults(eng, q, (sm.params[0],), facts):
                 continue  # only with a non-default value of an optional parameter the grammar does not speak about
+            facts = _str_is_identity(facts, x)
             st = State(facts=facts)
             if accepting:
                 n_acc += 1
@@ -227,6 +228,7 @@ def predicate_exact(eng, q, kind, n=None):
             facts |= set(p.value.conds)
         if refuted_at_defaults(eng, q, (sm.params[0],), facts):
             continue
+        facts = _str_is_identity(facts, x)
         st = State(facts=facts)
         if p.kind == "return" and p.value == C(True):
             n_true += 1
@@ -263,6 +265,7 @@ def raiser_exact(eng, q, kind, n=None):
             facts |= set(p.value.conds)
         if refuted_at_defaults(eng, q, (sm.params[0],), facts):
             continue
+        facts = _str_is_identity(facts, x)
         st = State(facts=facts)
         if p.kind == "return":
             n_acc += 1
@@ -274,6 +277,26 @@ def raiser_exact(eng, q, kind, n=None):
     if n_acc == 0:
         bad.append("never accepts")
     return (not bad, "; ".join(sorted(set(bad)))[:300])
+
+
+def _str_is_identity(facts, x):
+    """str(x) is x itself when x is a str: facts about the rendering are facts about the value"""
+    from sa.terms import subst
+
+    sx = CallT("builtin:str", [x])
+    st0 = State(facts=set(facts))
+    ts = st0.types(x)
+    if ts is not None and ts <= {"str"} and any(_mentions_term(f, sx) for f in facts):
+        return set(subst(f, {sx: x}) for f in facts)
+    return facts
+
+
+def _mentions_term(f, t):
+    if f == t:
+        return True
+    if isinstance(f, (tuple, frozenset)):
+        return any(_mentions_term(y, t) for y in f)
+    return False
 
 
 def _missing(kind, st, x, n):
